@@ -438,6 +438,62 @@ pub fn slow_peer(r: &mut Report, seed: u64) {
     }
 }
 
+/// "This host" as a bootstrap address: a first node listens on port P of the host; a second node on the same
+/// host is given `0.0.0.0:P` (which Linux delivers to the local socket on that port; the answer then comes
+/// from 127.0.0.1:P), `127.0.0.1:P`, or the host's own address, possibly next to dead entries. It is a live
+/// server's address in every spelling, so the node must join, and the first node must learn it.
+pub fn this_host(r: &mut Report, seed: u64) {
+    r.eval();
+    let mut rng = Rng::new(seed);
+    let w = World::with_cfg(seed, NetCfg { lat_min: MS, lat_max: 20 * MS, random_ties: true }, TraceLevel::Off);
+    w.set_local_delivery(true);
+    let host = Ipv4Addr::new(10, 53, 0, 1 + rng.usize(200) as u8);
+    let port = *rng.pick(&[6881u16, 1024, 40000, 65535]);
+    let mut spec = NodeSpec::server(host, &[]);
+    spec.port = Some(port);
+    let s = w.spawn(spec).expect("first node");
+    let spelling = rng.usize(3);
+    let name = ["unspecified", "loopback", "own-address"][spelling];
+    let entry = SocketAddrV4::new([Ipv4Addr::UNSPECIFIED, Ipv4Addr::LOCALHOST, host][spelling], port);
+    let mut boots = vec![entry];
+    for i in 0..rng.usize(3) {
+        boots.insert(rng.usize(boots.len() + 1), SocketAddrV4::new(Ipv4Addr::new(10, 53, 1, 1 + i as u8), 6881));
+    }
+    let case = json!({"class":"this-host","seed":seed.to_string(),"spelling":name});
+    let server_mode = rng.bool();
+    let mut spec = if server_mode { NodeSpec::server(host, &boots) } else { NodeSpec::client(host, &boots) };
+    spec.port = Some(if port == 7000 { 7001 } else { 7000 });
+    w.run_for(rng.below(3 * SEC));
+    let x = w.spawn(spec).expect("x");
+    let res = w.block_on(x.adht.bootstrapped(), 120 * SEC);
+    let table = w.block_on(x.adht.to_bootstrap(), 5 * SEC).unwrap_or_default();
+    r.count("this_host_scenarios");
+    r.count(&format!("this_host/{name}"));
+    r.nontrivial(mix(seed, spelling as u64));
+    if res != Some(true) || table.is_empty() {
+        r.violation(
+            &format!("join/this-host/{name}/not-bootstrapped"),
+            "a live server listens on this host; the node was given its address (as 0.0.0.0:port, 127.0.0.1:port or the host's own address) and did not end its bootstrap with bootstrapped() = true and a non-empty table",
+            case.clone(),
+            json!({"bootstrap": boots.iter().map(|b| b.to_string()).collect::<Vec<_>>(), "bootstrapped": format!("{res:?}"), "table": table, "server_mode": server_mode}),
+        );
+    } else if server_mode {
+        // the first node learns the joiner (under the loopback address it saw, or the host's own)
+        w.run_for(5 * SEC);
+        let st = w.block_on(s.adht.to_bootstrap(), 5 * SEC).unwrap_or_default();
+        r.count("this_host/first_node_checked_for_the_joiner");
+        if st.is_empty() {
+            r.violation(&format!("join/this-host/{name}/first-node-did-not-learn-joiner"), "the first node's table is empty after a server-mode node on the same host bootstrapped from it", case.clone(), json!({"bootstrap": boots.iter().map(|b| b.to_string()).collect::<Vec<_>>()}));
+        }
+    }
+    drop(x);
+    drop(s);
+    w.shutdown();
+    for (thread, loc, msg) in crate::take_panics() {
+        r.violation(&format!("panic/{loc}"), &format!("thread {thread} panicked: {msg}"), case.clone(), json!({}));
+    }
+}
+
 pub fn run(a: &Args) -> Report {
     let mut r = Report::new("C13");
     if let Some(path) = &a.replay {
@@ -446,6 +502,8 @@ pub fn run(a: &Args) -> Report {
         let seed = c["seed"].as_str().and_then(|s| s.parse().ok()).unwrap_or(1);
         if c["class"] == "slow-peer" {
             slow_peer(&mut r, seed);
+        } else if c["class"] == "this-host" {
+            this_host(&mut r, seed);
         } else if c["class"] == "islands" {
             islands(&mut r, seed);
         } else if c["class"] == "dead-or-late" {
@@ -467,6 +525,8 @@ pub fn run(a: &Args) -> Report {
             super::guarded(&mut r, json!({"class":"islands","seed":s.to_string()}), |r| islands(r, s));
             let s = rng.u64();
             super::guarded(&mut r, json!({"class":"slow-peer","seed":s.to_string()}), |r| slow_peer(r, s));
+            let s = rng.u64();
+            super::guarded(&mut r, json!({"class":"this-host","seed":s.to_string()}), |r| this_host(r, s));
             continue;
         }
         let servers = *rng.pick(&[1usize, 2, 3, 4, 5, 7, 10, 14, 19, 20, 20]);
